@@ -257,8 +257,28 @@ def generate(repo):
     out.append(f'/-- translated from `field.py:Field.shift` (line {outs[1].lineno}): (x, y) to (row, column) -/\n'
                f'def fieldShiftIJ {RC} (out_0 out_1 : R) : R × R :=\n  ({o2[0]}, {o2[1]})\n')
     loop = _one([n for n in ast.walk(fs) if isinstance(n, ast.For)], 'Field.shift: loop')
-    if ast.unparse(loop.iter) != 'self.tilt' or ast.unparse(loop.body[0]) != 'x, y = tilt.shift(xs=x, ys=y, z=z, wavelength=wavelength)':
-        raise Refuse('Field.shift: the fold over self.tilt changed')
+    # the fold over self.tilt, translated: initial values, which accumulator feeds which keyword of tilt.shift, which result goes where
+    if ast.unparse(loop.iter) != 'self.tilt' or ast.unparse(loop.target) != 'tilt' or len(loop.body) != 1 or loop.orelse: raise Refuse('Field.shift: the loop over self.tilt changed')
+    fsb = [n for n in fs.body if not (isinstance(n, ast.Expr) and isinstance(n.value, ast.Constant))]
+    li = fsb.index(loop) if loop in fsb else -1
+    init = fsb[li - 1] if li > 0 else None
+    if not (isinstance(init, ast.Assign) and ast.unparse(init.targets[0]) in ('(x, y)', 'x, y') and isinstance(init.value, ast.Tuple) and len(init.value.elts) == 2
+            and all(isinstance(v, ast.Constant) and v.value in (0, 1) and not isinstance(v.value, bool) for v in init.value.elts)):
+        raise Refuse('Field.shift: the accumulators are no longer initialised by `x, y = <0|1>, <0|1>` right before the loop')
+    cst = {0: 'zero', 1: 'one'}
+    st_ = loop.body[0]
+    if not (isinstance(st_, ast.Assign) and ast.unparse(st_.targets[0]) in ('(x, y)', 'x, y', '(y, x)', 'y, x') and isinstance(st_.value, ast.Call)
+            and ast.unparse(st_.value.func) == 'tilt.shift' and not st_.value.args):
+        raise Refuse('Field.shift: loop body is no longer `x, y = tilt.shift(keywords)`')
+    fkw_ = {k.arg: ast.unparse(k.value) for k in st_.value.keywords}
+    acc = {'x': 'p.1', 'y': 'p.2', 'z': 'z', 'wavelength': 'wavelength'}
+    if set(fkw_) != {'xs', 'ys', 'z', 'wavelength'} or any(v not in acc for v in fkw_.values()): raise Refuse(f'Field.shift: keywords of tilt.shift changed: {fkw_}')
+    callx = f'shift t {acc[fkw_["xs"]]} {acc[fkw_["ys"]]} {acc[fkw_["z"]]} {acc[fkw_["wavelength"]]}'
+    swapped = ast.unparse(st_.targets[0]).strip('()').startswith('y')
+    out.append(f'/-- translated from `field.py:Field.shift` (line {init.lineno}): the fold over `self.tilt`; `shift t xs ys z wavelength` = `t.shift(xs=…, ys=…, z=…, wavelength=…)`,\n'
+               f'the pair is the accumulator `(x, y)` -/\n'
+               f'def fieldShiftFold {{R T : Type}} (shift : T → R → R → R → R → R × R) (zero one : R) (tilt : List T) (z wavelength : R) : R × R :=\n'
+               f'  tilt.foldl (fun (p : R × R) t => ' + (f'(({callx}).2, ({callx}).1)' if swapped else f'{callx}') + f') ({cst[init.value.elts[0].value]}, {cst[init.value.elts[1].value]})\n')
     # ---------------- DispersiveTilt.shift, first-order branches of _dispersion and _trace
     dsft, ddis, dtra = _method(mod, 'DispersiveTilt', 'shift'), _method(mod, 'DispersiveTilt', '_dispersion'), _method(mod, 'DispersiveTilt', '_trace')
     denv = {'__one__': 'one', 'sqrt': True, 'wavelength': 'wavelength', 'xs': 'xs', 'ys': 'ys',
